@@ -810,3 +810,8 @@ mod tests {
         }
     }
 }
+
+#[cfg(kani)]
+pub(crate) mod verif {
+    include!(concat!(env!("LIBP2P_VERIF"), "/hooks/rendezvous_server.rs"));
+}
